@@ -511,3 +511,9 @@ PROPS['C05']['required_classes']['all'] += ['accepted:conditional-entries-none-o
 PROPS['C11']['required_classes']['all'] += ['calling-thread:action-avail-denied/nnp:true']
 # round 10: what a policy file means does not depend on its name; the json.Marshal form of a policy is a policy file
 PROPS['C15']['required_classes']['all'] += ['policy-file-name-extension:.json/content:json', 'policy-file-name-extension:.json/content:yaml', 'policy-file-name-extension:.yaml/content:json']
+# round 10: the configuration path of C14 exercised through the sandbox command itself (file names, json.Marshal form, large files)
+PROPS['C14']['units'].append({'test': 'TestC14SandboxPath', 'checks': {'quick': 320, 'thorough': 20000}, 'shards': {'quick': 8, 'thorough': 16}, 'helpers': _SANDBOX, 'timeout': {'quick': 500, 'thorough': 3300}})
+PROPS['C14']['required_classes']['all'] += ['policy-file-name-extension:.json/content:json', 'policy-file-larger-than-64KiB']
+
+MANIFEST_TEXT['C14']['claim'] += '; the same files (YAML spellings, json.Marshal form, names with and without a telling extension, larger than 64 KiB) given to the built sandbox command, whose target must observe the in-memory policy\'s decisions'
+MANIFEST_TEXT['C16']['claim'] += '; every extraction under a watchdog (terminates); functions of thousands of lines before a bare site'
